@@ -175,6 +175,11 @@ type Rec struct {
 	M    map[string]*Rec `json:"m,omitempty"`
 }
 
+// recursive non-struct types
+type RecM map[string]RecM
+type RecS []RecS
+type RecMS map[string][]RecMS
+
 type RecA struct {
 	B *RecB
 	N string
@@ -313,6 +318,9 @@ func init() {
 	reg(PSq{})
 	reg(Rec{})
 	reg(RecA{})
+	reg(RecM(nil))
+	reg(RecS(nil))
+	reg(RecMS(nil))
 	reg(EmbA{})
 	reg(EmbB{})
 	reg(Deep{})
